@@ -6,13 +6,29 @@ import sockgen as G
 RULE = ("families bauth (BasicAuthMiddleware::process consulted in the headersParsed slot of a Socket over SimTcp) and b64 "
         "(fromBase64/toBase64 vs. model); credential tables <= 4 users incl. prefix/case-variant users, empty and colon passwords, "
         "re-registered users; histories on ONE middleware instance (registrations and password rotations between connections, the same header replayed); header values: valid credentials and structured near misses (scheme case, 0/2 spaces, tab, truncated / "
-        "padded / over-padded / dirty token, other user's password, prefix, case change, missing colon, missing header) + random bytes")
+        "padded / over-padded / dirty token, other user's password, prefix, case change, lossy conversions of a non-ASCII password ('?' / low byte / accent dropped), missing colon, missing header) + random bytes")
 ASSUMPTIONS = ["'base64-decodes to' is Qt's decoder (characters outside the alphabet are skipped): a token with junk characters still carries exact credentials",
                "users and passwords are valid UTF-8 (the middleware converts through QString)"]
 TRUSTED = ["QByteArray::fromBase64 is modelled (Base64.v) and compared on every run"]
 
 USERS = [b"alice", b"Alice", b"al", b"bob", b"", b"a:b", b"\xc3\xa9ve"]
-PASSES = [b"secret", b"Secret", b"sec", b"", b"p:w", b"secret ", b"x" * 20, b"q" * 260]
+PASSES = [b"secret", b"Secret", b"sec", b"", b"p:w", b"secret ", b"x" * 20, b"q" * 260,
+          "pa\u20acs".encode(), "\u00e9t\u00e9".encode(), "\u4e2d\u6587".encode(), "\u0141\u00f3d\u017a".encode()]
+
+
+def folded(pw, rng):
+    """wrong passwords that a lossy conversion of the right one produces: '?' for what Latin-1 / ASCII cannot hold, the low byte
+    of the code point, the base letter without its accent, another case"""
+    t = pw.decode("utf-8")
+    k = rng.below(5)
+    if k == 0: r = "".join(c if ord(c) < 256 else "?" for c in t)
+    elif k == 1: r = "".join(c if ord(c) < 128 else "?" for c in t)
+    elif k == 2: r = "".join(chr(ord(c) & 0xff) if ord(c) > 255 and (ord(c) & 0xff) >= 32 else c for c in t)
+    elif k == 3:
+        import unicodedata
+        r = "".join(c for c in unicodedata.normalize("NFD", t) if not unicodedata.combining(c))
+    else: r = t.swapcase()
+    return r.encode("utf-8")
 
 
 def cases(tier, seed, ctx=None):
@@ -37,7 +53,7 @@ def cases(tier, seed, ctx=None):
         for _ in range(rng.range(0, 4)):
             table.append([rng.choice(USERS), rng.choice(PASSES)])
         realm = rng.choice([b"R", b"My Realm", b""])
-        kind = rng.below(14)
+        kind = rng.below(15)
         u, p = (rng.choice(table) if table and rng.chance(4, 5) else [rng.choice(USERS), rng.choice(PASSES)])
         tok = base64.b64encode(u + b":" + p)
         hv = b"Basic " + tok
@@ -60,6 +76,10 @@ def cases(tier, seed, ctx=None):
         elif kind == 11: hv = rng.choice([b"Bearer ", b"Digest ", b"Basi ", b"Basicx "]) + tok; tag = "other-scheme"
         elif kind == 12: hv = rng.bytes(rng.range(0, 14), b"Basic QWxhZGRpbjpvcGVu=: \t"); tag = "random"
         elif kind == 13: hv = b"Basic " + tok + b" x"; tag = "trailing-part"
+        elif kind == 14:
+            u, p = rng.choice(USERS[:4]), rng.choice(PASSES[-4:])
+            table.append([u, p])
+            hv = b"Basic " + base64.b64encode(u + b":" + folded(p, rng)); tag = "lossy-conversion-of-the-password"
         if kind == 0 and rng.chance(1, 3):
             # wrong passwords that share a prefix with the right one and whose length differs by a multiple of 256 (or by 255/257)
             extra = rng.choice([256, 512, 255, 257, 768])
